@@ -441,9 +441,9 @@ void tr(vf::Draw &d, vf::Ctx &ctx) { trace_driver<T>(d, ctx, K, M, lanes<T>(), &
 
 // ------------------------------------------------------------------------------------------------
 // determinant. Matrix classes: 0 general small integers (closed forms n<=4 only), 1 diagonally dominant (rows AND columns) with
-// positive diagonal, 2 diagonally dominant with drawn diagonal signs, 3 class 1 with two rows swapped (det < 0 forced),
+// positive diagonal, 2 diagonally dominant with drawn diagonal signs, 3 class 1 with its rows permuted (one exchange / a k-cycle / a drawn shuffle),
 // 4 dyadic reals (closed forms n<=4 only)
-static const char *det_cls_names[] = {"general-int", "diag-dominant-positive", "diag-dominant-signed-diagonal", "row-swapped(det<0)", "dyadic-real"};
+static const char *det_cls_names[] = {"general-int", "diag-dominant-positive", "diag-dominant-signed-diagonal", "rows-permuted", "dyadic-real"};
 static const char *strat_names[] = {"Simple", "LU", "QR"};
 
 template <class T>
@@ -469,8 +469,20 @@ void det_driver(vf::Draw &d, vf::Ctx &ctx, int strat, int kind, size_t M, T (*ke
     }
     if (cls == 2) { std::vector<int64_t> sg; d.fill(sg, M, 0, 1, 0); for (size_t i = 0; i < M; ++i) if (sg[i]) v[i * M + i] = -v[i * M + i]; }
     if (cls == 3) {
-      size_t p = (size_t)d.integer(0, (int64_t)M - 2), q = (size_t)d.integer((int64_t)p + 1, (int64_t)M - 1);
-      for (size_t j = 0; j < M; ++j) std::swap(v[p * M + j], v[q * M + j]);
+      // rows of the dominant matrix permuted: one exchange, one k-cycle (rotation of a run of k rows) or a drawn shuffle -- the pivoted
+      // strategies have to recover the permutation AND its parity, and parity code that is right for exchanges can be wrong for long cycles
+      int how = M >= 3 ? (int)d.integer(0, 2) : 0;
+      if (how == 0) {
+        size_t p = (size_t)d.integer(0, (int64_t)M - 2), q = (size_t)d.integer((int64_t)p + 1, (int64_t)M - 1);
+        for (size_t j = 0; j < M; ++j) std::swap(v[p * M + j], v[q * M + j]);
+      } else if (how == 1) {
+        size_t k = (size_t)d.integer(3, (int64_t)M), p = (size_t)d.integer(0, (int64_t)(M - k));
+        for (size_t r = p; r + 1 < p + k; ++r) for (size_t j = 0; j < M; ++j) std::swap(v[r * M + j], v[(r + 1) * M + j]);
+        ctx.label("det:rows-rotated-k-cycle");
+      } else {
+        for (size_t r = M - 1; r > 0; --r) { size_t q = (size_t)d.integer(0, (int64_t)r); if (q != r) for (size_t j = 0; j < M; ++j) std::swap(v[r * M + j], v[q * M + j]); }
+        ctx.label("det:rows-shuffled");
+      }
     }
   }
   std::vector<T> x(n), p0v(n), p1v(n, T(0));
